@@ -6,11 +6,45 @@ from common import Report
 MANIFEST = dict(
     technique='Coq non-interference proof over all operation histories (generic footprint framework; parser and tokenizer state transformers written from the code, parametric in the statement parser / lexer, failures and cancellations included) + per-method field read/write tables regenerated from go/ssa each run and checked against the model tables by complete evaluation + seeded history exploration on one real instance (probe vs fresh instance, reflect-level state comparison after every Reset/Release/Put/Get, per-field dirtiness trace compared with the Coq model)',
     text='Theorems C08_no_carry_over / C08_tok_no_carry_over: for every statement parser (lexer) and every finite history of parse entry points, recovery parses, ApplyOptions, Reset, Release, Put/Get (tokenize, TokenizeContext, SetDialect, SetLogger, Reset, Put/Get) with arbitrary inputs, failures and cancellations, on an instance that was new or came out of the pool after arbitrary use, the outcome of any probe call equals its outcome on a new instance carrying only the options the current holder applied; C08_depth_ctx_never_left_behind: after any history depth = 0 and ctx = nil; C08_reset_is_fresh, C08_pool_get_is_fresh, C08_tok_pool_get_is_fresh: the state after Reset / Release / Put, and every instance the pool can hand out, is EQUAL to a newly constructed one (tokenizer Reset: equal to a new one with the holder\'s dialect, logger excepted). Proved once for any implementation that respects a footprint table satisfying a decidable read-before-write condition (C08_no_carry_over_any_implementation), and the model transformers are proved to respect their table; five _refuted theorems exhibit the carry-over for each repaired defect switched back on.',
-    note=common.BASE_NOTE + 'The model transformers are hand-written from the Go code; their footprint table is tied to the source by the regenerated go/ssa field-effect table (Inst_C08: every struct field known, no unmodelled incoming read, every boundary operation stores every field on every path) and to the behaviour by the history correspondence; statement parser and lexer are abstract (any function of the fields the table lets them read); sync.Pool modelled as handing out any previously put instance or a new one; the currentToken field is justified by a guard lemma (cursor bound checked first), not by the SSA table.',
+    note=common.BASE_NOTE + 'The model transformers are hand-written from the Go code; their footprint table is tied to the source by the regenerated go/ssa field-effect table (Inst_C08: every model column is played by exactly one struct field, found by its role, the depth counter being the field the C02 guard recogniser identified; every other struct field is dead on entry of every method or well behaved, C08_extra_fields_admitted; no unmodelled incoming read, every boundary operation stores every field on every path) and to the behaviour by the history correspondence; statement parser and lexer are abstract (any function of the fields the table lets them read); sync.Pool modelled as handing out any previously put instance or a new one; the currentToken field is justified by a guard lemma (cursor bound checked first), not by the SSA table.',
     design='6/C08')
 
+# the model's columns (Model/Reuse.v all_pfields / all_tfields), named after ROLES; the struct field that currently plays a
+# role comes from the regenerated table (static.json fieldfx[].roles: found by type / use, the depth counter by the C02
+# recogniser), so a renamed field is the same column and an added field is an "extra" column
 PFIELDS = ["tokens", "currentPos", "currentToken", "depth", "ctx", "cancelErr", "positions", "strict", "dialect"]
 TFIELDS = ["input", "pos", "lineStart", "lineStarts", "line", "keywords", "dialect", "logger", "configured", "loc", "Comments"]
+# Go methods a model operation stands for (Model/Reuse.v pop_methods / top_methods)
+OP_METHODS = {"OParse": ["Parse", "ParseFromModelTokens"], "OParsePos": ["ParseWithPositions", "ParseFromModelTokensWithPositions"],
+              "OParseCtx": ["ParseContext", "ParseContextFromModelTokens"], "ORecover": ["ParseWithRecovery"],
+              "ORecoverPos": ["ParseWithRecoveryFromModelTokens"], "OApply": ["ApplyOptions"], "OReset": ["Reset"], "ORelease": ["Release"],
+              "OPutGet": ["PutParser"], "OTokenize": ["Tokenize"], "OTokenizeCtx": ["TokenizeContext"], "OSetDialect": ["SetDialect"],
+              "OSetLogger": ["SetLogger"], "OTReset": ["Reset"], "OTPutGet": ["PutTokenizer"]}
+
+
+def current_names(fx, kind):
+    """current struct-field names of the model's columns, in model order"""
+    roles = (fx or {}).get(kind + "_roles") or {}
+    return [roles.get(r, r) for r in (PFIELDS if kind == "parser" else TFIELDS)]
+
+
+def extra_effect(fx, kind, op, field):
+    """footprint of a struct field the model has no column for under a model operation, from its regenerated cells
+    (mirror of Reuse.eff_of_cell / eff_join)"""
+    raw = ((fx or {}).get("raw") or {}).get(kind) or {}
+    effs = []
+    for m in OP_METHODS[op]:
+        c = (raw.get(m) or {}).get(field)
+        if c is None:
+            effs.append("Any")
+            continue
+        _, cls, az = c
+        effs.append({"none": "Keep", "balanced": "Keep", "must": "Zero" if az else "Det", "zero_or_keep": "KZ", "may": "Any"}[cls])
+    e = effs[0]
+    for x in effs[1:]:
+        if x != e:
+            e = "KZ" if {x, e} <= {"Keep", "Zero", "KZ"} else "Any"
+    return e
 POP = {"parse": "OParse", "parse_raw_empty": "OParse", "parse_raw_nil": "OParse", "parse_noeof": "OParse", "parsepos": "OParsePos",
        "parsectx": "OParseCtx", "recover": "ORecover", "recoverpos": "ORecoverPos", "apply": "OApply", "reset": "OReset",
        "release": "ORelease", "putget": "OPutGet", "putget_other": "OPutGet"}
@@ -318,26 +352,38 @@ def coq_bool(b):
     return "true" if b else "false"
 
 
-def dirtiness_cases(outs, hs_by_id):
-    """Coq cases for the per-field dirtiness correspondence"""
+def dirtiness_cases(outs, hs_by_id, fx=None):
+    """Coq cases for the per-field dirtiness correspondence (columns found by role; extra struct fields are checked
+    here against the footprint their regenerated column stands for)"""
     pcases, tcases, pid, tid = [], [], [], []
-    broken = []
+    broken, extra_bad = [], []
     for o in outs:
         if not o.get("trace"):
             continue
         kind = o["kind"]
-        exp = PFIELDS if kind == "parser" else TFIELDS
-        if o.get("fields") != exp:
-            broken.append({"id": o["id"], "kind": kind, "fields_now": o.get("fields"), "fields_model": exp})
+        model = PFIELDS if kind == "parser" else TFIELDS
+        names = current_names(fx, kind)
+        now = o.get("fields") or []
+        if len(set(names)) != len(names) or any(n not in now for n in names):
+            broken.append({"id": o["id"], "kind": kind, "fields_now": now, "fields_model": model, "played_by": names})
             continue
+        idx = [now.index(n) for n in names]
+        extras = [i for i in range(len(now)) if i not in idx]
         steps = []
+        dirty = {i: False for i in extras}
         for st in o["trace"]:
             name = (POP if kind == "parser" else TOP)[st["op"]]
-            obs = "; ".join("(%s, %s)" % (coq_bool(x["d"]), coq_bool(x["c"])) for x in st["obs"])
+            obs = "; ".join("(%s, %s)" % (coq_bool(st["obs"][i]["d"]), coq_bool(st["obs"][i]["c"])) for i in idx)
             steps.append("(%s, [%s])" % (name, obs))
+            for i in extras:
+                e = extra_effect(fx, kind, name, now[i])
+                dirty[i] = {"Keep": dirty[i], "KZ": dirty[i], "Zero": False}.get(e, True)
+                x = st["obs"][i]
+                if (x["d"] and not dirty[i]) or (e == "Keep" and x["c"]):
+                    extra_bad.append({"id": o["id"], "field": now[i], "op": st["op"], "footprint": e, "observed": x})
         (pcases if kind == "parser" else tcases).append("[" + "; ".join(steps) + "]")
         (pid if kind == "parser" else tid).append(o["id"])
-    return pcases, pid, tcases, tid, broken
+    return pcases, pid, tcases, tid, broken, extra_bad
 
 
 def switches():
@@ -349,8 +395,9 @@ def switches():
     return d, td, ks
 
 
-def run_dirtiness(rp, outs, hs_by_id):
-    pcases, pid, tcases, tid, broken = dirtiness_cases(outs, hs_by_id)
+def run_dirtiness(rp, outs, hs_by_id, fx=None):
+    pcases, pid, tcases, tid, broken, extra_bad = dirtiness_cases(outs, hs_by_id, fx)
+    broken = broken + [dict(e, kind="extra-field") for e in extra_bad[:3]]
     d, td, _ = switches()
     bad_ids = []
     n = 0
@@ -398,7 +445,7 @@ def run(tier):
             fx = gen08.emit_fieldfx(static)
             ok_inst, ok_props, full_ok, logs = common.coq_stage(
                 rp, ["theories/Inst/Inst_C08.vo", "theories/Proofs/ReuseP.vo"], "theories/Props/C08.v",
-                ["Props.C08.C08_no_carry_over_any_implementation", "Props.C08.C08_no_carry_over", "Props.C08.C08_reset_is_fresh",
+                ["Props.C08.C08_no_carry_over_any_implementation", "Props.C08.C08_extra_fields_admitted", "Props.C08.C08_no_carry_over", "Props.C08.C08_reset_is_fresh",
                  "Props.C08.C08_pool_get_is_fresh", "Props.C08.C08_depth_ctx_never_left_behind", "Props.C08.C08_tok_no_carry_over", "Props.C08.C08_tok_pool_get_is_fresh",
                  "Props.C08.C08_tok_reset_is_fresh",
                  "Props.C08.C08_stale_positions_refuted (+ put_keeps_dialect, release_keeps_config, tok_put_keeps_dialect, tok_early_return _refuted)"],
@@ -444,7 +491,7 @@ def run(tier):
                      "history_%s_%d" % (h["kind"], o["id"]))
 
     # correspondence: observed per-field dirtiness vs the Coq footprint model
-    ncases, bad_ids, broken = run_dirtiness(rp, outs, hs_by_id)
+    ncases, bad_ids, broken = run_dirtiness(rp, outs, hs_by_id, fx)
     rp.obligation("correspondence: observed per-field dirtiness of the real instance agrees with the footprint model (Keep => unchanged, clean => equal to a new instance)",
                   not bad_ids and not broken, "%d histories" % ncases)
     if (bad_ids or broken) and not reported:
@@ -488,7 +535,9 @@ def run(tier):
                            "pool_put_get": reused, "pool_returned_other_object": sum(o.get("pool_other", 0) for o in outs),
                            "probe_outcome_classes": pc, "inputs": {c: len(v) for c, v in index.items()}}
     rp.cov["dirtiness_correspondence"] = {"histories": ncases, "mismatching": len(bad_ids), "struct_mismatch": len(broken)}
-    rp.cov["field_effect_table"] = {"methods": len(fx.get("rows", [])), "parser_fields": fx.get("parser_fields"), "tokenizer_fields": fx.get("tokenizer_fields")}
+    rp.cov["field_effect_table"] = {"methods": len(fx.get("rows", [])), "parser_fields": fx.get("parser_fields"), "tokenizer_fields": fx.get("tokenizer_fields"),
+                                    "parser_roles": fx.get("parser_roles"), "depth_counter": fx.get("parser_counter"),
+                                    "extra_fields": {k: [f for f in (fx.get(k + "_fields") or []) if f not in current_names(fx, k)] for k in ("parser", "tokenizer")}}
     rp.cov["samples"] = [self_contained(hs[0], inputs), self_contained(hs[-1], inputs)]
     if DIED:
         rp.cov["implementation_hangs_skipped"] = DIED[:5]
@@ -507,8 +556,8 @@ def run(tier):
 def bad_cells():
     """ask Coq which (method, field) cells of the regenerated table are incompatible with the model's footprint table"""
     body = ("From Coq Require Import List String Bool.\nFrom GV Require Import Model.Reuse Gen.FieldFx.\nImport ListNotations.\n"
-            "Definition badp := Eval vm_compute in fx_bad_cells (ptable no_defects) pfield_name pop_methods pguard_r pguard_w true parser_fx.\n"
-            "Definition badt := Eval vm_compute in fx_bad_cells (ttable no_tdefects) tfield_name top_methods tguard_r tguard_w false tokenizer_fx.\n"
+            "Definition badp := Eval vm_compute in fx_bad_cells (ptable no_defects) (role_name parser_roles pfield_name) pop_methods pguard_r pguard_w true parser_fx.\n"
+            "Definition badt := Eval vm_compute in fx_bad_cells (ttable no_tdefects) (role_name tokenizer_roles tfield_name) top_methods tguard_r tguard_w false tokenizer_fx.\n"
             "Print badp.\nPrint badt.\n")
     ok, out, err = common.coq_cases("c08_badcells", body)
     if not ok:
